@@ -357,9 +357,19 @@ pub fn tensor_exact(c: &Circ) -> (Vec<R>, usize, usize) {
 }
 
 pub fn tensor_exact_assign(c: &Circ, assign: &dyn Fn(&[u32], usize) -> usize) -> (Vec<R>, usize, usize) {
-    let m = simulate::<Zw>(c, assign);
-    let f = R::sqrt2_pow(-m.k);
-    (m.entries.iter().map(|z| R::from_zw(z).mul(&f)).collect(), m.in_qubits.len(), m.out_qubits.len())
+    // fast path: checked i128 coefficients; circuits of thousands of gates can exceed them,
+    // then the same simulation is repeated over BigInt
+    match std::panic::catch_unwind(std::panic::AssertUnwindSafe(|| simulate::<Zw>(c, assign))) {
+        Ok(m) => {
+            let f = R::sqrt2_pow(-m.k);
+            (m.entries.iter().map(|z| R::from_zw(z).mul(&f)).collect(), m.in_qubits.len(), m.out_qubits.len())
+        }
+        Err(_) => {
+            let m = simulate::<R>(c, assign);
+            let f = R::sqrt2_pow(-m.k);
+            (m.entries.iter().map(|z| z.mul(&f)).collect(), m.in_qubits.len(), m.out_qubits.len())
+        }
+    }
 }
 
 pub fn tensor_float(c: &Circ) -> (Vec<Cf>, usize, usize) {
